@@ -128,6 +128,9 @@ def run_expr(k, s, vals, variant):
             r = t.operate(s)
         elif variant == "bracket":
             r = t[s]
+        elif variant.startswith("reflex:"):
+            r = t.operate(s)                 # s is already the reflexive spelling  name op= rhs
+            variant = variant[7:]
         else:
             r = t.operate(variant + "=" + s)
     except (Exception, SystemExit) as ex:
@@ -221,6 +224,10 @@ def replay(cases):
                         viol.append(("expr/%s/%s" % (style if style != "min" else "-", ",".join(kinds)),
                                      "%r (%s) on environment %d: %s" % ((v + "=" + s) if v not in ("pure", "bracket") else s, v, k, bad),
                                      {"case": c, "env": k, "variant": v}))
+            if c.get("rs"):                  # reflexive spelling of  name op rhs : stores the same values under name
+                bad = run_expr(k, c["rs"], vals, "reflex:" + tree[2][1])
+                if bad:
+                    viol.append(("expr/reflexive/" + ",".join(kinds), "%r on environment %d: %s" % (c["rs"], k, bad), {"case": c, "env": k, "variant": "reflexive"}))
             if one_node:
                 bad = run_object(k, tree, vals)
                 if bad:
@@ -368,3 +375,6 @@ def run(ctx):
     # growth next to C01 / C02: the SQL-like selector Track.query (Query.tla)
     from drivers import query_common
     query_common.run(ctx, quick)
+    # growth next to C02: the operator objects the expression grammar does not reach (Operators.tla)
+    from drivers import operators_common
+    operators_common.run(ctx, quick)
